@@ -88,6 +88,10 @@ func ring(box orb.Bound, in orb.Ring) orb.Ring {
 		return in
 	}
 
+	// the input is used as scratch space, but not the memory behind it:
+	// rings that are views of one buffer must not overwrite each other.
+	in = in[:len(in):len(in)]
+
 	f := in[0]
 	l := in[len(in)-1]
 
